@@ -44,10 +44,19 @@ func VerifC14() {
 		rt.Assert(false, "initial load did not build one breaker per rule")
 		return
 	}
-	// runtime state: every old breaker is open with a far deadline
-	for _, b := range ob {
-		b.(*errorCountCircuitBreaker).state.set(Open)
+	// runtime state: every old breaker is open with a far deadline, or (HALF=1) half-open with some probes already done
+	st0 := Open
+	if rt.Param("HALF") != 0 {
+		st0 = HalfOpen
+	}
+	probesDone := make([]uint64, len(ob))
+	for i, b := range ob {
+		b.(*errorCountCircuitBreaker).state.set(st0)
 		b.(*errorCountCircuitBreaker).nextRetryTimestampMs = 3000000000000
+		if st0 == HalfOpen {
+			probesDone[i] = rt.U64n("probesDone", 2)
+			b.(*errorCountCircuitBreaker).curProbeNumber = probesDone[i]
+		}
 	}
 	// new list: each element an identical copy of an old rule, a modified (stat-compatible) copy, or an unrelated rule
 	kind := make([]int, nNew) // k = class representative: identical to old[k]; 10+k: modified copy of old[k]; 99: unrelated
@@ -109,6 +118,8 @@ func VerifC14() {
 				if rep[j] == k && rt.SameObject(nb[i], ob[j]) {
 					kept++
 					keptOld[j] = true
+					kb := nb[i].(*errorCountCircuitBreaker)
+					rt.Assert(kb.nextRetryTimestampMs == 3000000000000 && kb.curProbeNumber == probesDone[j], "a kept breaker keeps its retry deadline and the probes it has already counted")
 					rt.Assert(kind[i] == k, "an old breaker is only reused for a rule identical to its own")
 				}
 			}
@@ -124,7 +135,7 @@ func VerifC14() {
 		for i := 0; i < nNew; i++ {
 			if kind[i] == k {
 				if seen < mOld {
-					rt.AssertExcept(nb[i].CurrentState() == Open, "an open breaker of an unchanged rule stays open across the reload", "D9", region)
+					rt.AssertExcept(nb[i].CurrentState() == st0, "an open (or half-open) breaker of an unchanged rule stays so across the reload", "D9", region)
 				}
 				seen++
 			}
